@@ -172,6 +172,12 @@ class Wsdl11(XmlSchema):
     def build_interface_document(self, url):
         """Build the wsdl for the application."""
 
+        # these hold the nodes of the document being built: one that was built
+        # (or left half-built) before must not leak into this one.
+        self.port_type_dict = {}
+        self.binding_dict = {}
+        self.service_elt_dict = {}
+
         self.build_schema_nodes()
 
         self.url = REGEX_WSDL.sub('', url)
